@@ -15,21 +15,23 @@
 (*   empty one that the sweep of the same iteration deletes silently.      *)
 (* BugStaleInit: the initial set is computed once and reused for later     *)
 (*   sessions.                                                             *)
+(* BugRelinkDrop: when the stream of a link is re-opened, the exit of the  *)
+(*   replaced session drops the neighbour from the peer table.             *)
 (* The history variable records the environment steps for replay on real   *)
 (* floodsub nodes (w = the driver waits for the network to settle after    *)
 (* the step).                                                              *)
 (***************************************************************************)
 EXTENDS Naturals, FiniteSets, Sequences, TLC, Json
-CONSTANTS Node, Topo, InitUp, MaxTog, MaxQ, BugInitEmpty, BugStaleInit, Gen,
+CONSTANTS Node, Topo, InitUp, MaxTog, MaxQ, BugInitEmpty, BugStaleInit, BugRelinkDrop, Gen,
           WSet    \* allowed values of w: BOOLEAN, or {TRUE} for big-step histories only
 Link == {<<a, b>> \in Node \X Node : {a, b} \in Topo /\ a # b}
-VARIABLES up, pend, sess, chan, subs, pubbed, view, q, cache, frozen, togs, waited, hist, done
-vars == <<up, pend, sess, chan, subs, pubbed, view, q, cache, frozen, togs, waited, hist, done>>
+VARIABLES up, pend, sess, chan, subs, pubbed, view, q, cache, frozen, togs, relinks, waited, hist, done
+vars == <<up, pend, sess, chan, subs, pubbed, view, q, cache, frozen, togs, relinks, waited, hist, done>>
 Init == /\ up = InitUp
         /\ pend = [n \in Node |-> {m \in Node : {n, m} \in InitUp /\ m # n}] /\ sess = [n \in Node |-> {}]
         /\ chan = [n \in Node |-> FALSE] /\ subs = [n \in Node |-> FALSE] /\ pubbed = [n \in Node |-> FALSE]
         /\ view = [n \in Node |-> {}] /\ q = [l \in Link |-> <<>>] /\ cache = [n \in Node |-> "none"]
-        /\ frozen = FALSE /\ togs = 0 /\ waited = TRUE
+        /\ frozen = FALSE /\ togs = 0 /\ relinks = 0 /\ waited = TRUE
         /\ hist = <<[a |-> "init", n |-> "", id |-> 0, subs |-> {}, w |-> TRUE]>> /\ done = FALSE
 Rec(h) == hist' = IF Gen THEN Append(hist, h) ELSE hist
 Send(qq, from, tos, v) == [l \in Link |-> IF l[1] = from /\ l[2] \in tos THEN Append(qq[l], v) ELSE qq[l]]
@@ -40,21 +42,29 @@ CanStim == ~done /\ (waited => Quiet)
 Toggle(n, w) == /\ CanStim /\ ~frozen /\ togs < MaxTog /\ togs' = togs + 1 /\ waited' = w
                 /\ subs' = [subs EXCEPT ![n] = ~@] /\ chan' = [chan EXCEPT ![n] = TRUE]
                 /\ Rec([a |-> "toggle", n |-> n, id |-> 0, subs |-> {}, w |-> w])
-                /\ UNCHANGED <<up, pend, sess, pubbed, view, q, cache, frozen, done>>
+                /\ UNCHANGED <<up, pend, sess, pubbed, view, q, cache, frozen, relinks, done>>
+\* the stream of an established link is re-opened (same peer, same link id): both ends get a new session for the same neighbour,
+\* the old session ends afterwards; the new session is handed the initial set again
+Relink(e, w) == /\ CanStim /\ ~frozen /\ e \in up /\ relinks < 1 /\ relinks' = relinks + 1 /\ waited' = w
+                /\ \A n \in e : (e \ {n}) \subseteq sess[n]
+                /\ pend' = [n \in Node |-> IF n \in e THEN pend[n] \cup (e \ {n}) ELSE pend[n]]
+                /\ Rec([a |-> "relink", n |-> "", id |-> 0, subs |-> e, w |-> w])
+                /\ UNCHANGED <<up, sess, chan, subs, pubbed, view, q, cache, frozen, togs, done>>
 LinkUp(e, w) == /\ CanStim /\ ~frozen /\ e \in Topo \ up /\ up' = up \cup {e} /\ waited' = w
                 /\ pend' = [n \in Node |-> IF n \in e THEN pend[n] \cup (e \ {n}) ELSE pend[n]]
                 /\ Rec([a |-> "linkup", n |-> "", id |-> 0, subs |-> e, w |-> w])
-                /\ UNCHANGED <<sess, chan, subs, pubbed, view, q, cache, frozen, togs, done>>
+                /\ UNCHANGED <<sess, chan, subs, pubbed, view, q, cache, frozen, togs, relinks, done>>
 Freeze == /\ CanStim /\ ~frozen /\ Quiet /\ up = Topo /\ frozen' = TRUE /\ waited' = TRUE
           /\ Rec([a |-> "freeze", n |-> "", id |-> 0, subs |-> {x \in Node : subs[x]}, w |-> TRUE])
-          /\ UNCHANGED <<up, pend, sess, chan, subs, pubbed, view, q, cache, togs, done>>
+          /\ UNCHANGED <<up, pend, sess, chan, subs, pubbed, view, q, cache, togs, relinks, done>>
 \* ---- one iteration of the Execute loop of node n
 InitAnn(n) == IF BugStaleInit /\ cache[n] # "none" THEN cache[n] = "yes"
               ELSE IF BugInitEmpty THEN chan[n] ELSE subs[n]
 Iter(n) ==
   /\ NeedsIter(n)
   /\ LET new == pend[n]
-         s2 == sess[n] \cup new
+         \* BugRelinkDrop: the exit of the replaced session removes the neighbour although a new session for it is registered
+         s2 == IF BugRelinkDrop THEN (sess[n] \cup new) \ (sess[n] \cap new) ELSE sess[n] \cup new
          q1 == IF InitAnn(n) THEN Send(q, n, new, TRUE) ELSE q
          unann == chan[n] /\ ~subs[n] /\ pubbed[n]
          ann == subs[n] /\ ~pubbed[n]
@@ -64,28 +74,29 @@ Iter(n) ==
         /\ cache' = [cache EXCEPT ![n] = IF new # {} /\ @ = "none" THEN (IF InitAnn(n) THEN "yes" ELSE "no") ELSE @]
         /\ chan' = [chan EXCEPT ![n] = subs[n]]
         /\ pubbed' = [pubbed EXCEPT ![n] = subs[n]]
-  /\ UNCHANGED <<up, subs, view, frozen, togs, waited, hist, done>>
+  /\ UNCHANGED <<up, subs, view, frozen, togs, relinks, waited, hist, done>>
 \* the session of n with m reads one announcement
 Recv(n, m) == /\ m \in sess[n] /\ q[<<m, n>>] # <<>>
               /\ view' = [view EXCEPT ![n] = IF Head(q[<<m, n>>]) THEN @ \cup {m} ELSE @ \ {m}]
               /\ q' = [q EXCEPT ![<<m, n>>] = Tail(@)]
-              /\ UNCHANGED <<up, pend, sess, chan, subs, pubbed, cache, frozen, togs, waited, hist, done>>
+              /\ UNCHANGED <<up, pend, sess, chan, subs, pubbed, cache, frozen, togs, relinks, waited, hist, done>>
 \* after the freeze every node publishes once (the monitor of the real trace decides delivery by reachability)
 Finish == /\ Gen /\ ~done /\ frozen /\ Quiet /\ done' = TRUE
           /\ PrintT(<<"HIST", ToJson([topo |-> {<<CHOOSE x \in e : TRUE, CHOOSE y \in e : y # (CHOOSE x \in e : TRUE)>> : e \in InitUp},
                                       steps |-> hist \o [i \in 1..Cardinality(Node) |->
                                                            [a |-> "publish", n |-> (CHOOSE f \in [1..Cardinality(Node) -> Node] : \A j, k \in 1..Cardinality(Node) : j # k => f[j] # f[k])[i],
                                                             id |-> i, subs |-> {}, w |-> TRUE]]])>>)
-          /\ UNCHANGED <<up, pend, sess, chan, subs, pubbed, view, q, cache, frozen, togs, waited, hist>>
+          /\ UNCHANGED <<up, pend, sess, chan, subs, pubbed, view, q, cache, frozen, togs, relinks, waited, hist>>
 Next == \/ \E n \in Node, w \in WSet : Toggle(n, w)
-        \/ \E e \in Topo, w \in WSet : LinkUp(e, w)
+        \/ \E e \in Topo, w \in WSet : LinkUp(e, w) \/ Relink(e, w)
         \/ Freeze \/ Finish
         \/ \E n \in Node : Iter(n)
         \/ \E l \in Link : Recv(l[2], l[1])
 Spec == Init /\ [][Next]_vars
 \* C29: at quiescence what every neighbour believes equals the local subscription
-ViewsConverged == Quiet => \A n \in Node : \A m \in sess[n] : (m \in view[n]) <=> subs[m]
+UpNbr(n) == {m \in Node : {n, m} \in up /\ m # n}
+ViewsConverged == Quiet => \A n \in Node : \A m \in UpNbr(n) : (m \in view[n]) <=> subs[m]
 \* every link is eventually served by both ends
 SessionsComplete == Quiet => \A n \in Node : sess[n] = {m \in Node : {n, m} \in up /\ m # n}
-View == <<up, pend, sess, chan, subs, pubbed, view, q, cache, frozen, togs, waited>>
+View == <<up, pend, sess, chan, subs, pubbed, view, q, cache, frozen, togs, relinks, waited>>
 =============================================================================
